@@ -20,6 +20,9 @@ pub fn perr(e: &RtcpParseError) -> Value {
         SdesPrivPrefixTooLarge { len, available } => ("SdesPrivPrefixTooLarge", vec![*len as u64, *available as u64]),
         WrongImplementation => ("WrongImplementation", vec![]),
         PacketTypeMismatch { actual, requested } => ("PacketTypeMismatch", vec![*actual as u64, *requested as u64]),
+        // a variant this harness does not know (the enum grew): reported by its Debug name and the numbers it shows
+        #[allow(unreachable_patterns)]
+        other => return other_err(&format!("{other:?}")),
     };
     json!({"t": "err", "e": name, "f": f})
 }
@@ -50,7 +53,15 @@ pub fn werr(e: &RtcpWriteError) -> Value {
         PayloadTypeInvalid => ("PayloadTypeInvalid", vec![]),
         PaddingBitsTooLarge => ("PaddingBitsTooLarge", vec![]),
         TooManyFir => ("TooManyFir", vec![]),
+        #[allow(unreachable_patterns)]
+        other => return other_err(&format!("{other:?}")),
     };
+    json!({"t": "err", "e": name, "f": f})
+}
+
+fn other_err(dbg: &str) -> Value {
+    let name: String = dbg.chars().take_while(|c| c.is_ascii_alphanumeric() || *c == '_').collect();
+    let f: Vec<u64> = ints_in(dbg).into_iter().map(|x| x.min(0x7fff_ffff)).collect();
     json!({"t": "err", "e": name, "f": f})
 }
 
@@ -737,8 +748,8 @@ pub fn packet_res_in(base: &[u8], data: &[u8], pfx: &str, with_conv: bool, panic
     }
 }
 
-pub fn custom_res<const PT: u8, const MIN: usize, const SSRC: bool>(
-    res: Result<Custom<PT, MIN, SSRC>, RtcpParseError>,
+pub fn custom_res<const PT: u8, const MIN: usize, const SSRC: bool, const MAXC: u8>(
+    res: Result<Custom<PT, MIN, SSRC, MAXC>, RtcpParseError>,
     data: &[u8],
     pfx: &str,
     panics: &mut Vec<String>,
